@@ -14,6 +14,11 @@ import scipy.sparse as sp
 from ..report import Out
 
 ID = 'C05'
+# sub-checks added after the seeded-change waves (DESIGN.md sections 5 and 6)
+EXTENSIONS = [
+    'overlapping dict views, single-case replay, solve leaves system and operands intact, second solve equals the first',
+    'expand=False keeps the given order; float32 load / complex prescribed values / complex system with x omitted / omitted right-hand side; constrained sets named with repeated indices; all-kept permuted I; overwrite=True semantics; defaults',
+]
 LEVEL = 'exploration'
 TECHNIQUE = "small-scope exhaustive input enumeration (all sparsity patterns x all ordered index splits) vs dense exact model"
 LEVEL_TEXT = ("Exhaustive within the bound: every 3x3 sparsity pattern (512) and every row-type vector for n=4 (quick) and "
